@@ -247,3 +247,30 @@ def first_not_none(summ):
                     return it[3][0][1], it[2], it[3][0][0]
                 return it, g[2], lid
     return None
+
+
+def selected_tags(live, subject):
+    """The constant tags t for which the path condition allows `subject == t`: a positive `subject == t` conjunct gives
+    {t}; otherwise a disjunction of such tests minus the tags excluded by `subject != t` conjuncts (the last row of a
+    dispatch table is reached by elimination).  Empty list: the condition does not select by tag."""
+    conj = conjuncts(live)
+
+    def tag_of(c, op):
+        if c[0] == "cmp" and c[1] == op:
+            if c[2] == subject and c[3][0] == "const":
+                return c[3][1]
+            if c[3] == subject and c[2][0] == "const":
+                return c[2][1]
+        return None
+
+    pos = [tag_of(c, "eq") for c in conj]
+    pos = [t for t in pos if t is not None]
+    if pos:
+        return pos
+    neg = {tag_of(c, "ne") for c in conj} - {None}
+    for c in conj:
+        if c[0] == "or":
+            alts = [tag_of(d, "eq") for d in c[1]]
+            if all(a is not None for a in alts):
+                return [a for a in alts if a not in neg]
+    return []
